@@ -36,7 +36,8 @@ Qed.
 Lemma leaf_of_err k b e : leaf_of k b = Err e -> isfuel k = false -> e <> OutOfFuel.
 Proof.
   unfold leaf_of. destruct k; intros H F; try discriminate; try (inversion H; discriminate).
-  destruct (utf16_ok _); inversion H. discriminate.
+  - destruct (_ <? _)%nat; inversion H. discriminate.
+  - destruct (utf16_ok _); inversion H. discriminate.
 Qed.
 
 Lemma p_total : forall n,
